@@ -5,7 +5,13 @@ for a lock token that another thread owns is not enabled.  A schedule is the lis
 enabled set) taken at each step; ``fanout`` records how many alternatives existed, which drives the depth-first
 enumeration in explore().
 """
+import sys
 import threading
+import time
+
+_RealLock = threading.Lock
+_RealRLock = threading.RLock
+STALL = 2.0  # seconds without reaching a yield point before the running thread counts as blocked on something unknown
 
 
 class Deadlock(Exception):
@@ -19,28 +25,51 @@ class Sched:
         self.pos = 0
         self.trace = []
         self.fanout = []
-        self.cv = threading.Condition()
+        self.cv = threading.Condition(_RealRLock())
         self.current = None
+        self.since = time.monotonic()
+        self.stalled = set()
+        self.stall_events = 0
         self.waiting = {}
         self.blocked = {}
         self.owners = {}
         self.done = set()
         self.deadlock = None
         self.free = False
+        # tid mode (preemption-bounded exploration): choices are thread ids; beyond the given prefix the thread that ran
+        # last keeps running while it is enabled
+        self.by_tid = False
+        self.last = None
+        self.hist = []
+        self.invalid = False
 
     def _all_parked(self):
-        return len(self.waiting) + len(self.done) == self.n
+        return len(self.waiting) + len(self.done) + len(self.stalled) == self.n
 
     def _pick(self):
         enabled = sorted(t for t in self.waiting if t not in self.blocked or self.blocked[t] not in self.owners)
+        self.since = time.monotonic()
         if not enabled:
-            if len(self.done) == self.n:
+            if len(self.done) == self.n or self.stalled:
+                # finished, or only threads blocked on something the scheduler does not know are left: wait for them
                 self.current = None
                 return
             self.deadlock = {"waiting": dict(self.waiting), "blocked_on": dict(self.blocked), "owners": dict(self.owners),
                              "trace_tail": self.trace[-8:]}
             self.free = True  # let parked threads go so the process can report
             self.cv.notify_all()
+            return
+        if self.by_tid:
+            want = self.choices[self.pos] if self.pos < len(self.choices) else None
+            if want is None or want not in enabled:
+                if want is not None:
+                    self.invalid = True
+                want = self.last if self.last in enabled else enabled[0]
+            self.hist.append((tuple(enabled), want, self.last))
+            self.last = want
+            self.fanout.append(len(enabled))
+            self.pos += 1
+            self.current = want
             return
         i = self.choices[self.pos] if self.pos < len(self.choices) else 0
         self.fanout.append(len(enabled))
@@ -52,6 +81,7 @@ class Sched:
             if self.free:
                 return
             self.waiting[tid] = label
+            self.stalled.discard(tid)
             if lock_token is not None:
                 self.blocked[tid] = lock_token
             if self.current == tid or (self.current is None and self._all_parked()):
@@ -60,7 +90,18 @@ class Sched:
                     self._pick()
             self.cv.notify_all()
             while self.current != tid and not self.free:
-                self.cv.wait(timeout=5)
+                self.cv.wait(timeout=0.5)
+                c = self.current
+                if (c is not None and c != tid and c not in self.waiting and c not in self.done and not self.free
+                        and time.monotonic() - self.since > STALL):
+                    # the thread that was given the turn never reached its next yield point: it is blocked on
+                    # synchronisation the scheduler does not own (or just slow); let the others go on, it rejoins when it arrives
+                    self.stalled.add(c)
+                    self.stall_events += 1
+                    self.current = None
+                    if self._all_parked():
+                        self._pick()
+                    self.cv.notify_all()
             if self.free:
                 return
             del self.waiting[tid]
@@ -86,10 +127,16 @@ class Sched:
         with self.cv:
             self.done.add(tid)
             self.waiting.pop(tid, None)
-            if self.current == tid:
+            self.stalled.discard(tid)
+            if self.current == tid or self.current is None:
                 self.current = None
-                if self._all_parked() and not self.free:
+                if self._all_parked() and not self.free and len(self.done) < self.n:
                     self._pick()
+            self.cv.notify_all()
+
+    def set_free(self):
+        with self.cv:
+            self.free = True
             self.cv.notify_all()
 
 
@@ -139,6 +186,74 @@ class SLock(SerializableLock):
         self.release()
 
 
+class SchedLock:
+    """stand-in for threading.Lock / RLock objects created by the package under test: acquisition is a yield point and
+    a thread waiting for a held lock is not enabled (otherwise a parked lock holder and a scheduled waiter would hang)"""
+
+    def __init__(self, real, reentrant):
+        self._real = real
+        self._re = reentrant
+        self._depth = 0
+        self.token = f"L{id(self):x}"
+
+    def acquire(self, blocking=True, timeout=-1):
+        s = CUR[0]
+        t = _tid()
+        if s is not None and t is not None and not s.free and blocking:
+            if self._re and s.owners.get(self.token) == t:
+                self._depth += 1
+                return self._real.acquire(blocking, timeout)
+            if not (COARSE[0] and s.try_acquire(t, self.token)):
+                s.yield_point(t, "lock", lock_token=self.token)
+            ok = self._real.acquire(blocking, timeout)
+            self._depth = 1
+            return ok
+        return self._real.acquire(blocking, timeout)
+
+    def release(self):
+        s = CUR[0]
+        t = _tid()
+        self._real.release()
+        if s is not None and t is not None:
+            self._depth -= 1
+            if self._depth <= 0:
+                s.release(t, self.token)
+
+    def locked(self):
+        return self._real.locked()
+
+    def __enter__(self):
+        return self.acquire()
+
+    def __exit__(self, *a):
+        self.release()
+
+    def __getstate__(self):
+        raise TypeError("cannot pickle lock objects")
+
+
+def patch_threading_locks():
+    """threading.Lock() / RLock() called from ceos_alos2 code return scheduler-aware locks (everything else: real ones)"""
+    if getattr(threading, "_vf_patched", False):
+        return
+
+    def _from_package():
+        try:
+            return sys._getframe(2).f_globals.get("__name__", "").startswith("ceos_alos2")
+        except ValueError:
+            return False
+
+    def Lock():
+        return SchedLock(_RealLock(), False) if _from_package() else _RealLock()
+
+    def RLock(*a, **k):
+        return SchedLock(_RealRLock(), True) if _from_package() else _RealRLock(*a, **k)
+
+    threading.Lock = Lock
+    threading.RLock = RLock
+    threading._vf_patched = True
+
+
 def install_lock():
     """replace the lock class used by ceos_alos2.xarray with the scheduler-aware subclass (harness side only)"""
     import ceos_alos2.xarray as cx
@@ -147,9 +262,10 @@ def install_lock():
     return SLock
 
 
-def run(choices, jobs, join_timeout=20):
+def run(choices, jobs, join_timeout=20, by_tid=False):
     """jobs: list of callables; -> (sched, results dict tid -> value | exception, hung: bool)"""
     s = Sched(choices, len(jobs))
+    s.by_tid = by_tid
     CUR[0] = s
     res = {}
 
@@ -168,9 +284,15 @@ def run(choices, jobs, join_timeout=20):
     for t in ths:
         t.start()
     hung = False
+    deadline = time.monotonic() + join_timeout
     for t in ths:
-        t.join(join_timeout)
+        t.join(max(0.0, deadline - time.monotonic()))
         hung = hung or t.is_alive()
+    if hung:
+        # release every parked thread so that real locks they hold are given back and later runs are not affected
+        s.set_free()
+        for t in ths:
+            t.join(5)
     CUR[0] = None
     return s, res, hung
 
@@ -221,3 +343,93 @@ def is_interleaved(trace):
     tids = [t for t, _ in trace]
     switches = sum(1 for a, b in zip(tids, tids[1:]) if a != b)
     return switches > len(set(tids)) - 1
+
+
+# ---- line-level yield points (every statement start of the read path is a legitimate preemption point of a thread) ----
+
+FINE = [False]
+_LINE_TOOL = 2
+_line_on = [False]
+LINE_FILES = ("ceos_alos2/array.py", "ceos_alos2/xarray.py")
+
+
+def install_line_yields():
+    import sys
+
+    mon = getattr(sys, "monitoring", None)
+    if mon is None or _line_on[0]:
+        return _line_on[0]
+    try:
+        mon.use_tool_id(_LINE_TOOL, "vf-sched-lines")
+    except ValueError:
+        return False
+
+    def on_line(code, line, files=LINE_FILES, cur=CUR, fine=FINE, tid=_tid, disable=mon.DISABLE):
+        if not code.co_filename.endswith(files):
+            return disable
+        s = cur[0]
+        if s is not None and fine[0]:
+            t = tid()
+            if t is not None:
+                s.yield_point(t, f"L{line}")
+
+    mon.register_callback(_LINE_TOOL, mon.events.LINE, on_line)
+    mon.set_events(_LINE_TOOL, mon.events.LINE)
+    _line_on[0] = True
+    return True
+
+
+def _preemptions(hist, upto):
+    return sum(1 for en, chosen, last in hist[:upto] if last is not None and last in en and chosen != last)
+
+
+def explore_pb(jobs, check, bound=1, shard=(0, 1), limit=20000):
+    """preemption-bounded depth-first exploration (choices are thread ids; a preemption = switching away from a thread
+    that could have continued).  Enumerates every schedule with at most ``bound`` preemptions; the top-level branches
+    are dealt round-robin to shards.  -> dict(runs, distinct, interleaved, violations, deadlocks, hung, max_depth, steps)"""
+    seen = set()
+    out = {"runs": 0, "distinct": 0, "violations": [], "deadlocks": 0, "hung": 0, "max_depth": 0, "steps": 0, "complete": True}
+    stack = [([], 0)]
+    top = 0
+    while stack:
+        if out["runs"] >= limit:
+            out["complete"] = False
+            break
+        pre, depth0 = stack.pop()
+        s, res, hung = run(pre, jobs, by_tid=True)
+        out["runs"] += 1
+        out["stalls"] = out.get("stalls", 0) + s.stall_events
+        out["steps"] += len(s.hist)
+        out["max_depth"] = max(out["max_depth"], len(s.hist))
+        seen.add(tuple(s.trace))
+        if s.deadlock is not None:
+            out["deadlocks"] += 1
+            out["violations"].append({"what": f"deadlock: no thread runnable while some are unfinished: {s.deadlock}", "schedule": pre})
+            if hung:
+                out["hung"] += 1
+                break
+        elif hung:
+            out["hung"] += 1
+            break
+        else:
+            msg = check(res)
+            if msg and len(out["violations"]) < 5:
+                out["violations"].append({"what": msg, "schedule": pre, "trace": [f"{t}:{l}" for t, l in s.trace][-80:]})
+        chosen = [c for _, c, _ in s.hist]
+        for d in range(depth0, len(s.hist)):
+            en, ch, last = s.hist[d]
+            used = _preemptions(s.hist, d)
+            for alt in en:
+                if alt == ch:
+                    continue
+                cost = 1 if (last is not None and last in en and alt != last) else 0
+                if used + cost > bound:
+                    continue
+                if not pre:
+                    top += 1
+                    if (top - 1) % shard[1] != shard[0]:
+                        continue
+                stack.append((chosen[:d] + [alt], d + 1))
+    out["distinct"] = len(seen)
+    out["interleaved"] = sum(1 for t in seen if is_interleaved(t))
+    return out
